@@ -11,39 +11,6 @@ import (
 	"golang.org/x/tools/go/ssa"
 )
 
-// localMapLiteral extracts a map built in f by MakeMap + constant MapUpdates, selected by key/elem type names.
-func localMapLiterals(p *Prog, f *ssa.Function, keyT, elemT string) []map[int64]string {
-	var out []map[int64]string
-	p.instrs(f, func(b *ssa.BasicBlock, i int, in ssa.Instruction) {
-		mk, ok := in.(*ssa.MakeMap)
-		if !ok {
-			return
-		}
-		mt := mk.Type().Underlying().(*types.Map)
-		if !strings.HasSuffix(types.TypeString(mt.Key(), nil), keyT) || !strings.HasSuffix(types.TypeString(mt.Elem(), nil), elemT) {
-			return
-		}
-		m := map[int64]string{}
-		for _, rf := range refs(mk) {
-			mu, ok := rf.(*ssa.MapUpdate)
-			if !ok {
-				continue
-			}
-			k, ok1 := constInt(mu.Key)
-			if !ok1 {
-				continue
-			}
-			if s, ok := constString(mu.Value); ok {
-				m[k] = s
-			} else if v, ok := constInt(mu.Value); ok {
-				m[k] = fmt.Sprint(v)
-			}
-		}
-		out = append(out, m)
-	})
-	return out
-}
-
 // binOpNames: value -> name of the coq.BinOp constants.
 func binOpNames(p *Prog) map[int64]string {
 	out := map[int64]string{}
